@@ -356,8 +356,17 @@ fn run_shard(shard: &Shard, p: &Params, seed: u64, only: Option<u64>) -> Collect
     // from_raw put the HALT sentinel at mem[0]; origin 0 makes every PC "user space" for the
     // purposes of this property (execute() itself never looks at the origin).
     let mut reference = RefVm::load(&[0x0000], shard.stack_on).unwrap();
-    // persistent random background: half zeros, half arbitrary words
-    {
+    // persistent random background: half zeros, half arbitrary words (under Miri: a sparse one,
+    // initialising 2 x 64K words costs more there than the whole workload)
+    if cfg!(miri) {
+        let mut rng = Rng::for_case(seed, "C02-bg", shard.stack_on as u64);
+        let mem = env.verif_mem_mut();
+        for _ in 0..512 {
+            let (a, v) = (rng.u16() as usize, rng.u16());
+            mem[a] = v;
+            reference.mem[a] = v;
+        }
+    } else {
         let mut rng = Rng::for_case(seed, "C02-bg", shard.stack_on as u64);
         let mem = env.verif_mem_mut();
         for a in 0..0x10000usize {
